@@ -1079,6 +1079,8 @@ def _analyse_own(chk):
 
 def analyse(chk):
     _analyse_own(chk)
+    chk.guard(lambda c_: core.include_findings(c_, 'C09', files=['ciderpress/pyscf/numint.py', 'ciderpress/pyscf/dft.py'], rules=['reinit'],
+                                               why='a generator kept for a molecule whose geometry/orientation changed evaluates the rotated molecule with the old positions'))
     chk.guard(lambda c_: core.include_findings(c_, 'C18', files=['ciderpress/dft/sph_harm_coeff.py', 'ciderpress/pyscf/sdmx.py', 'ciderpress/pyscf/sdmx_slow.py', 'ciderpress/dft/lcao_interpolation.py', 'ciderpress/dft/grids_indexer.py'], rules=['noncontig'],
                                                why='a strided view of the Gaunt / harmonic tables handed to C as a bare pointer makes the l=1 terms read the wrong rows'))
     chk.guard(lambda c_: core.include_findings(c_, 'C10', files=['ciderpress/lib/mod_cider/sph_harm.c', 'ciderpress/lib/mod_cider/conv_interpolation.c', 'ciderpress/lib/mod_cider/fast_sdmx.c'], rules=None,
